@@ -164,7 +164,7 @@ Theorem step_refines (t : tree Z) (f : flat) (o : op) :
   obs_equiv o (snd (mstep t o)) (snd (fstep f o)).
 Proof.
   intros Hwf HR. pose proof HR as [Hnd HRm].
-  destruct o as [p v|p|p|p|q| | |q c|q c|p|p]; cbn [mstep fstep fst snd].
+  destruct o as [p v|p|p|p|q| | |q c|q c|p|p|q]; cbn [mstep fstep fst snd].
   - (* Add *)
     pose proof (fconflict_spec t f p HR) as HC. pose proof (add_ok_iff t p v Hwf) as HA.
     destruct (add t p v) as [t'|] eqn:E.
@@ -254,6 +254,15 @@ Proof.
     destruct (is_branch_at t p) eqn:E1, (fbranch f p) eqn:E2; try constructor.
     + pose proof (proj2 HF (proj1 HB eq_refl)). congruence.
     + pose proof (proj2 HB (proj1 HF eq_refl)). congruence.
+  - (* Query with a failing visitor *)
+    split; [assumption|]. split; [assumption|].
+    assert (HP : Permutation (query t q) (fselect f q CAll)).
+    { apply perm_of_same; [now apply query_once|unfold fselect; now apply NoDup_map_filter|].
+      intros [p v]. rewrite (query_exact t q p v Hwf). unfold fselect. rewrite filter_In. cbn [fst snd cnd_eval].
+      rewrite andb_true_r, HRm. tauto. }
+    destruct (query t q) as [|x l] eqn:E1, (fselect f q CAll) as [|y l'] eqn:E2; try constructor.
+    + apply Permutation_nil in HP. discriminate.
+    + apply Permutation_sym, Permutation_nil in HP. discriminate.
 Qed.
 
 (** ** every operation sequence: the model's answers are the specification's *)
